@@ -10,7 +10,7 @@ MANIFEST = {
             "Model/Collection/tuple/arithmetic nodes): parameter count = number of distinct priors, advertised order strictly "
             "increasing in id, the i-th vector entry is found at the i-th advertised path (structural paths and tuple members; every advertised "
             "path is classified) and at every structural path of the i-th parameter, constants untouched, "
-            "derived and tuple values computed from the same assignment, frame property, vector / unit-vector / path routes agree "
+            "derived and tuple values (members of every kind) computed from the same assignment, frame property, vector / unit-vector / path routes agree "
             "(any choice of paths, last entry wins); tied to the code by a "
             "bit-exact vm_compute correspondence on generated composition programs (two-sided abstraction) and a direct property oracle",
     "note": "Trusted: Coq kernel + vm_compute; the harness's raw __dict__ abstraction of live model objects and instances; the "
@@ -390,13 +390,13 @@ def oracle(c, r, root, vec_hex, unit_hex, stats, skip_inst=False):
     return None
 
 
-def coq_case(r, vec_hex, cmp_inst=True, prune=False):
+def coq_case(r, vec_hex, cmp_inst=True):
     tree = r["tree"]
     fl = lambda xs: clist([cfloat(unhex(x)) for x in xs])
     unit_ok = cmp_inst and "ok" in r["vec_from_unit"] and "ok" in r["inst_unit"]
     return ("{| c_tree := %s; c_vec := %s; c_paths := %s; c_upaths := %s; c_count := %s; c_ids := %s; "
             "c_inst := %s; c_pv := %s; c_inst_paths := %s; c_unit_vec := %s; c_inst_unit := %s; "
-            "c_cmp_inst := %s; c_prune := %s |}") % (
+            "c_cmp_inst := %s |}") % (
         MG.coq_node(tree), fl(vec_hex),
         clist([MG.coq_path(p) for p in r["paths"]]), clist([MG.coq_path(p) for p in r["upaths"]]),
         cnat(r["count"]), clist([cnat(x) for x in r["ids"]]),
@@ -405,7 +405,7 @@ def coq_case(r, vec_hex, cmp_inst=True, prune=False):
         MG.coq_ival(r["inst_paths_any"]["ok"]) if cmp_inst else "IMissing",
         fl(r["vec_from_unit"]["ok"]) if unit_ok else "[]",
         ("(Some %s)" % MG.coq_ival(r["inst_unit"]["ok"])) if unit_ok else "None",
-        "true" if cmp_inst else "false", "true" if prune else "false")
+        "true" if cmp_inst else "false")
 
 
 # ---------- structural class labels (computed from the case only) ----------
@@ -542,6 +542,15 @@ def run(ctx):
             results[ci + j * common.NCPU] = r
     coq_cases, coq_idx = [], []
     stats = {}
+    failed_cases = set()
+    _failure = ctx.failure
+
+    def failure(kind, what, case, **kw):
+        for j_, c_ in enumerate(cases):
+            if c_ is case:
+                failed_cases.add(j_)
+        return _failure(kind, what, case, **kw)
+    ctx.failure = failure
     for i, (c, r) in enumerate(zip(cases, results)):
         prog = c["program"]
         feats = set(prog["features"])
@@ -590,18 +599,8 @@ def run(ctx):
             if ops2 or not MG.tree_ok_for_model(ro["tree"]):
                 ctx.hist("coq-correspondence", "not sent: array / - ** neg abs / reserved attribute name")
                 continue
-            sc = structural_classes(root)
             ok_inst = "ok" in ro["inst"] and "ok" in ro["inst_paths_any"]
-            if msg and ctx.match_known(cls):
-                # a known-finding shape on which the oracle fails: the model is compared in its current-code view
-                if "int-const-in-tuple" in sc or not ok_inst:
-                    coq_cases.append(coq_case(ro, vec_hex, cmp_inst=False))
-                    ctx.hist("coq-correspondence", "known-finding shape: advertised order / count only")
-                else:
-                    coq_cases.append(coq_case(ro, vec_hex, cmp_inst=True, prune="arith-member-in-tuple" in sc))
-                    ctx.hist("coq-correspondence", "known-finding shape: current-code view (prune)")
-                coq_idx.append((i, phase))
-            elif dz or not ok_inst:
+            if dz or not ok_inst:
                 coq_cases.append(coq_case(ro, vec_hex, cmp_inst=False))
                 coq_idx.append((i, phase))
                 ctx.hist("coq-correspondence", "advertised order / count only (no instance)")
@@ -622,6 +621,7 @@ def run(ctx):
             ctx.notes["route_theorem_hypotheses"] = {"models": len(codes), "satisfy_wfb": sum(1 for x in codes if not x & 2),
                                                      "satisfy_wfb2": sum(1 for x in codes if not x & 4)}
             bad = [j for j, x in enumerate(codes) if x & 1]
+            failed_cases.update(coq_idx[b][0] for b in bad)
             for b in bad[:5]:
                 i, phase = coq_idx[b]
                 ctx.failure("correspondence", "[%s] Coq model and implementation disagree" % phase, cases[i],
@@ -629,6 +629,15 @@ def run(ctx):
                             broken={"kind": "correspondence", "name": "C01.check_case"}, found_input=False)
     else:
         ctx.obligation("correspondence:cases", "correspondence", False, "Model.vo not built")
+    ctx.failure = _failure
+    # regression guard: the pinned cases of repaired defects (corpus/C01, key "pinned") must pass oracle and correspondence
+    pinned = [(j_, c_["pinned"]) for j_, c_ in enumerate(cases) if c_.get("pinned")]
+    if pinned and not ctx.replay:
+        sent = {i_ for i_, _ in coq_idx}
+        broken = [name for j_, name in pinned if j_ in failed_cases or j_ not in sent]
+        ctx.obligation("regression:repaired-defects", "oracle", not broken,
+                       "regressed or not compared: %s" % broken if broken else "%d pinned cases of repaired defects pass (%s)" % (
+                           len(pinned), ", ".join(n_ for _, n_ in pinned)))
     if os.environ.get("VERIF_C01_DUMP"):      # debugging aid: every violation / known hit of this run, summarised
         json.dump({"violations": [{"kind": v["kind"], "what": v["what"], "classes": v["classes"], "case": v["case"]} for v in ctx.violations],
                    "known": {k: h["count"] for k, h in ctx.known_hits.items()}, "distribution": ctx.distribution, "notes": ctx.notes},
